@@ -266,7 +266,7 @@ def run():
         env = dict(os.environ, PYTHONPATH=REPO, PYTHONDONTWRITEBYTECODE="1")
         try:
             p = subprocess.run(["/venv/bin/python", "-c", script, fmt, src], stdout=subprocess.PIPE, stderr=subprocess.PIPE,
-                               env=env, timeout=120, cwd="/")
+                               env=env, timeout=900, cwd="/")
         except subprocess.TimeoutExpired:
             return None
         back = os.path.join(mats.dir, "stdre%d%s" % (k, _cli.EXT[fmt]))
